@@ -19,6 +19,11 @@ pub enum Csg {
     /// max((sqrt(dx^2 + dy^2) - k (az - z)) / sqrt(1 + k^2), (az - h) - z).
     /// The surface meets the axis at the apex, where the gradient is 0/0.
     Cone { apex: [Fl; 3], k: Fl, h: Fl },
+    /// skew ellipsoid: (sqrt(dx^2 + k dx dy + dy^2 + dz^2) - r) / sqrt(1 + |k| / 2),
+    /// |k| < 2.  Finite everywhere, but the naive interval of the quadratic form
+    /// goes negative on large boxes around the centre (dx dy is not recognised as
+    /// bounded by the squares), so sqrt yields the NaN interval on coarse cells.
+    Skew { c: [Fl; 3], k: Fl, r: Fl },
     Union(Box<Csg>, Box<Csg>),
     Inter(Box<Csg>, Box<Csg>),
     Diff(Box<Csg>, Box<Csg>),
@@ -79,6 +84,22 @@ impl Csg {
                 let side = ctx.div(side, (1.0 + k.0 * k.0).sqrt()).unwrap();
                 let base = ctx.sub(apex[2].0 - h.0, z).unwrap();
                 ctx.max(side, base).unwrap()
+            }
+            Csg::Skew { c, k, r } => {
+                let dx = ctx.sub(x, c[0].0).unwrap();
+                let dy = ctx.sub(y, c[1].0).unwrap();
+                let dz = ctx.sub(z, c[2].0).unwrap();
+                let dx2 = ctx.square(dx).unwrap();
+                let dy2 = ctx.square(dy).unwrap();
+                let dz2 = ctx.square(dz).unwrap();
+                let xy = ctx.mul(dx, dy).unwrap();
+                let kxy = ctx.mul(xy, k.0).unwrap();
+                let s = ctx.add(dx2, kxy).unwrap();
+                let s = ctx.add(s, dy2).unwrap();
+                let s = ctx.add(s, dz2).unwrap();
+                let s = ctx.sqrt(s).unwrap();
+                let d = ctx.sub(s, r.0).unwrap();
+                ctx.div(d, (1.0 + k.0.abs() / 2.0).sqrt()).unwrap()
             }
             Csg::Half { n, d } => {
                 let a = ctx.mul(x, n[0].0).unwrap();
@@ -168,6 +189,16 @@ pub fn primitive(range: f32, smin: f32, smax: f32, halfspaces: bool) -> BoxedStr
         // origin (C08 needs the surface strictly inside the region)
         ([lattice(), lattice(), lattice()], pos(smin, smax), pos(smin, smax))
             .prop_map(|(apex, r, h)| Csg::Cone { apex, k: Fl(r.0 / h.0), h })
+            .boxed(),
+    ));
+    // skew ellipsoids whose longest half-axis is in [smin, smax]
+    alts.push((
+        1,
+        (c3(), (-12i32..=12), pos(smin, smax))
+            .prop_map(|(c, k, ext)| {
+                let k = k as f32 / 10.0;
+                Csg::Skew { c, k: Fl(k), r: Fl(ext.0 * (1.0 - k.abs() / 2.0).sqrt()) }
+            })
             .boxed(),
     ));
     if halfspaces {
